@@ -242,7 +242,7 @@ func c06One(r *Run, d *Driver, dir string, idx int, c c06Case) {
 			r.Violate("C06 panic", fmt.Sprintf("%s: %v", c.Desc, ir.panicV), replay)
 		}
 	} else {
-		ref, err := x509.ParseRevocationList(der)
+		ref, err := c06Reference(der)
 		if err != nil {
 			r.Note("reference decoder rejected a generated CRL: " + c.Desc + ": " + err.Error())
 			r.Count("ref:rejected")
@@ -322,7 +322,54 @@ func normExts(e []pkix.Extension) []pkix.Extension {
 }
 
 // c06CompareRef: implementation vs whole-document reference decoder. Returns "" when equal, else a short structural label.
-func c06CompareRef(ir implRead, ref *x509.RevocationList, tbs []byte, h crypto.Hash) string {
+// c06Reference: whole-document reference decoder = encoding/asn1 into pkix.CertificateList (handles v1 and v2);
+// for v2 documents x509.ParseRevocationList must agree with it.
+type c06Ref struct {
+	RevokedCertificateEntries []pkix.RevokedCertificate
+	RawIssuer                 []byte
+	ThisUpdate, NextUpdate    time.Time
+	Number                    *big.Int
+	RawTBSRevocationList      []byte
+	Signature                 []byte
+}
+
+func c06Reference(der []byte) (*c06Ref, error) {
+	var cl pkix.CertificateList
+	rest, err := asn1.Unmarshal(der, &cl)
+	if err != nil {
+		return nil, err
+	}
+	if len(rest) != 0 {
+		return nil, fmt.Errorf("trailing data")
+	}
+	iss, err := asn1.Marshal(cl.TBSCertList.Issuer)
+	if err != nil {
+		return nil, err
+	}
+	r := &c06Ref{RevokedCertificateEntries: cl.TBSCertList.RevokedCertificates, RawIssuer: iss,
+		ThisUpdate: cl.TBSCertList.ThisUpdate, NextUpdate: cl.TBSCertList.NextUpdate,
+		RawTBSRevocationList: cl.TBSCertList.Raw, Signature: cl.SignatureValue.RightAlign()}
+	for _, e := range cl.TBSCertList.Extensions {
+		if e.Id.Equal(oidCRLNumber) {
+			n := new(big.Int)
+			if _, err := asn1.Unmarshal(e.Value, &n); err != nil {
+				return nil, err
+			}
+			r.Number = n
+		}
+	}
+	if cl.TBSCertList.Version >= 1 {
+		x, err := x509.ParseRevocationList(der)
+		if err == nil {
+			if len(x.RevokedCertificateEntries) != len(r.RevokedCertificateEntries) || !bytes.Equal(x.RawTBSRevocationList, r.RawTBSRevocationList) {
+				return nil, fmt.Errorf("reference decoders disagree")
+			}
+		}
+	}
+	return r, nil
+}
+
+func c06CompareRef(ir implRead, ref *c06Ref, tbs []byte, h crypto.Hash) string {
 	p := ir.proc
 	if p.meta == nil || !p.gotExt {
 		return "missing-events"
@@ -342,8 +389,7 @@ func c06CompareRef(ir implRead, ref *x509.RevocationList, tbs []byte, h crypto.H
 			return "entry-extensions"
 		}
 	}
-	var rdn pkix.RDNSequence
-	if _, err := asn1.Unmarshal(ref.RawIssuer, &rdn); err != nil || !reflect.DeepEqual(rdn, p.meta.Issuer) {
+	if implIss, err := asn1.Marshal(p.meta.Issuer); err != nil || !bytes.Equal(implIss, ref.RawIssuer) {
 		return "issuer"
 	}
 	if !p.meta.ThisUpdate.Equal(ref.ThisUpdate) {
